@@ -124,7 +124,7 @@ impl Prop for C06 {
         "C06"
     }
     fn rule(&self) -> String {
-        "cases = 1-2 text resultsets of 1-12 columns x 0-20 rows answered to a COM_QUERY; every cell drawn from all ToMysqlValue implementors (u8..i64, usize, isize boundary-biased over full ranges; all finite f32/f64 bit patterns incl. subnormals and -0; String/&str/Vec<u8>/&[u8] with lengths over 0-250, 251-65535, >=65536 and contents incl. 0xFB, 0xFF, \"NULL\", \"\"; NaiveDate years 0-9999; NaiveDateTime and Duration with/without microseconds; mysql_common::Value of every variant), passed by value, by reference, in Option (Some/None), via write_col, write_row(values) and write_row(&values). Oracle: round trip through the reference text-row decoder and the canonical text grammar of the intended type (floats bit-for-bit), NULL vs \"\" vs \"NULL\" kept apart; second opinion from mysql_common's from_value. Non-trivial = a row with >= 2 different Rust types, or a string >= 251 bytes, or a temporal value with microseconds.".into()
+        "cases = 1-2 text resultsets of 1-12 columns x 0-20 rows answered to a COM_QUERY; every cell drawn from all ToMysqlValue implementors (u8..i64, usize, isize boundary-biased over full ranges; all finite f32/f64 bit patterns incl. subnormals and -0; String/&str/Vec<u8>/&[u8] with lengths over 0-250, 251-65535, >=65536 and contents incl. 0xFB, 0xFF, \"NULL\", \"\"; NaiveDate years 0-9999; NaiveDateTime and Duration with/without microseconds; mysql_common::Value of every variant), passed by value, by reference, in Option (Some/None), via write_col, write_row(values) and write_row(&values); one case in 2500 is a row of 17-70 MB whose 2-6 cells (byte strings around 1x, 2x, 3x the 2^24-1-byte packet size or filling up to +-12 bytes of a packet boundary; integers, short strings and NULLs before, between and after them) are laid out against the packet boundaries of the row message. Oracle: round trip through the reference text-row decoder and the canonical text grammar of the intended type (floats bit-for-bit), NULL vs \"\" vs \"NULL\" kept apart; second opinion from mysql_common's from_value. Non-trivial = a row with >= 2 different Rust types, or a string >= 251 bytes, or a temporal value with microseconds.".into()
     }
     fn assumptions(&self) -> Vec<String> {
         vec![
@@ -139,6 +139,20 @@ impl Prop for C06 {
         6000
     }
     fn gen(&self, g: &mut G<'_>, _tier: Tier) -> Case {
+        if g.chance(1, 2500) {
+            // a row longer than a wire packet, cell boundaries placed against the packet boundaries
+            let (cols, big) = gen_big_layout_row(g, false);
+            let mut rows = Vec::new();
+            let small = |g: &mut G<'_>| RowProg { cells: cols.iter().map(|_| Val::plain(Base::I32(g.below(1000) as i32))).collect(), form: RowForm::WriteRow, offers: vec![] };
+            if g.coin() {
+                rows.push(small(g));
+            }
+            rows.push(big);
+            if g.coin() {
+                rows.push(small(g));
+            }
+            return Case { sets: vec![(cols, rows)] };
+        }
         let nsets = if g.chance(1, 5) { 2 } else { 1 };
         let mut sets = Vec::new();
         let huge_case = g.chance(1, 40);
@@ -184,6 +198,12 @@ impl Prop for C06 {
         let mut cells = 0u64;
         for (_, rows) in &case.sets {
             for r in rows {
+                if r.cells.iter().any(|c| matches!(c.base, Base::BigBytes { .. })) {
+                    ex.class("row-longer-than-a-wire-packet");
+                    for c in classify_big_layout(r) {
+                        ex.class(c);
+                    }
+                }
                 let mut tags: Vec<u8> = r.cells.iter().map(|c| type_tag(&c.base)).collect();
                 tags.sort();
                 tags.dedup();
